@@ -4,6 +4,7 @@ Property theorems only; helper lemmas live in Proofs/Path.lean.
 -/
 import TrimeshVerif.Proofs.Path
 import TrimeshVerif.Generated.C14Arc
+import TrimeshVerif.Proofs.Enclosure
 import Mathlib.Tactic.Ring
 import Mathlib.Tactic.FieldSimp
 namespace TV.C14
@@ -92,5 +93,26 @@ theorem C14_arc_center_of_source (x0 y0 x1 y1 x2 y2 : Rat) (hd : centerDen x0 y0
   · congr 1; simp only [sqLen, sub2, centerNumY]; ring
 
 end arcsrc
+
+
+/-! ### shells and holes (`enclosure_tree`) -/
+
+section enclosure
+open TV.Enclosure
+variable {n : Nat} {C : Fin n → Fin n → Prop} [DecidableRel C]
+
+/-- **nesting into shells and holes**: order the closed polygons by containment (nested or disjoint curves: a strict
+    order in which the containers of a polygon form a chain) and count for each how many contain it.  Then a polygon
+    contained `k` times has exactly one container of every degree below `k`; in particular every polygon of odd
+    degree is the hole of exactly one shell - a polygon of even degree, one less than its own, that contains it -
+    which is the rule `enclosure_tree` applies; polygons of equal degree never contain one another -/
+theorem C14_enclosure (h : Laminar C) (c : Fin n) :
+    (∀ d, d < deg C c → ∃! r, C r c ∧ deg C r = d) ∧
+    (deg C c % 2 = 1 → ∃! r, deg C r % 2 = 0 ∧ deg C c = deg C r + 1 ∧ C r c) ∧
+    (∀ a, deg C a = deg C c → ¬ C a c) :=
+  ⟨fun d hd => exists_unique_container h c d hd, fun ho => hole_has_unique_shell h c ho,
+   fun a ha => holes_are_siblings h a c ha⟩
+
+end enclosure
 
 end TV.C14
